@@ -96,6 +96,13 @@ class PerturbInterp(PathInterp):
                 and norm(stmt.value.args[0]) == self.m:
             yield ("normal", PS(st.saved, st.dirty, True, st.nulls))
             return
+        # None-ness of plain assignments (`x = None` ... `if cond: x = {..}` ... `if x is not None:`)
+        if isinstance(stmt, ast.Assign) and isinstance(stmt.targets[0], ast.Name):
+            v_ = stmt.value
+            if isinstance(v_, ast.Constant) and v_.value is None:
+                st = st.with_null(stmt.targets[0].id, True)
+            elif isinstance(v_, (ast.Dict, ast.DictComp, ast.List, ast.ListComp, ast.Tuple, ast.JoinedStr)) or (isinstance(v_, ast.Constant) and v_.value is not None):
+                st = st.with_null(stmt.targets[0].id, False)
         # saving
         if isinstance(stmt, ast.Assign) and isinstance(stmt.targets[0], ast.Name):
             ks = self.saved_kind(stmt.value, st)
@@ -400,11 +407,42 @@ class C18(Check):
         else:
             self.violated("M3", MOD, q, "keyed-by-parameter", c, f"inputs `{kw.get('inputs')}` do not key each result by its parameter")
         ret = [r for r in ast.walk(fn) if isinstance(r, ast.Return)][0]
-        t = norm(ret.value)
-        if "variables=pd.DataFrame({k: v[0] for k, v in res})" in t and "fluxes=pd.DataFrame({k: v[1] for k, v in res})" in t:
+        # which worker component ends up in which field: a comprehension over `res`, or a dict filled in a loop over `res`
+        paths = [st for st, _ in SymInterp().run_function(fn, Sym()).returns]
+        full = [st for st in paths if any(e[0] == "store" for e in st.events)] or paths
+        comp: dict[str, set] = {"variables": set(), "fluxes": set()}
+        for st in full:
+            rv = [e[1] for e in st.events if e[0] == "return"]
+            if not rv:
+                continue
+            # the mapped results, whatever they are called, are written `res`
+            par_txt = {norm(n) for e in st.events if len(e) > 1 and isinstance(e[-1], str) for n in ast.walk(ast.parse(e[-1], mode="eval")) if isinstance(n, ast.Call) and norm(n.func) == "parallelise"}
+            if len(par_txt) == 1:
+                pt = par_txt.pop()
+                st = Sym(st.env, st.conds, tuple(tuple(x.replace(pt, "res") if isinstance(x, str) else x for x in e) for e in st.events))
+                rv = [e[1] for e in st.events if e[0] == "return"]
+            call = ast.parse(rv[-1], mode="eval").body
+            for k_ in getattr(call, "keywords", []):
+                if k_.arg not in comp:
+                    continue
+                v_ = k_.value
+                inner = v_.args[0] if isinstance(v_, ast.Call) and norm(v_.func) == "pd.DataFrame" and v_.args else None
+                if isinstance(inner, ast.DictComp) and len(inner.generators) == 1 and isinstance(inner.generators[0].target, ast.Tuple) and not inner.generators[0].ifs \
+                        and norm(inner.generators[0].iter).endswith("res") and norm(inner.key) == norm(inner.generators[0].target.elts[0]):
+                    val = norm(inner.value)
+                    vn = norm(inner.generators[0].target.elts[1])
+                    comp[k_.arg].add(val[len(vn):] if val.startswith(vn + "[") else "?")
+                elif isinstance(inner, ast.Name):
+                    stores = [e for e in st.events if e[0] == "store" and e[1].startswith(f"{inner.id}[")]
+                    for e in stores:
+                        key_ok = e[1] == f"{inner.id}[ITEM(0, res)[0]]"
+                        comp[k_.arg].add(e[2][len("ITEM(0, res)[1]"):] if key_ok and e[2].startswith("ITEM(0, res)[1][") else "?")
+                else:
+                    comp[k_.arg].add("?")
+        if comp == {"variables": {"[0]"}, "fluxes": {"[1]"}}:
             self.holds("M3", MOD, q, "assembly", ret, "concentration responses from component 0, flux responses from component 1")
         else:
-            self.violated("M3", MOD, q, "assembly", ret, "result assembly swaps or drops the worker's components")
+            self.violated("M3", MOD, q, "assembly", ret, f"result assembly swaps or drops the worker's components ({ {k: sorted(v) for k, v in comp.items()} })")
 
     def must_fire(self):
         W = "_response_coefficient_worker"
